@@ -476,15 +476,9 @@ func ApplyConnectCAOperationFromRequest(state *state.Store, req *structs.CAReque
 
 		return true
 	case structs.CAOpSetRootsAndConfig:
-		act, err := state.CARootSetCAS(index, req.Index, req.Roots)
-		if err != nil {
-			return err
-		}
-		if !act {
-			return act
-		}
-
-		act, err = state.CACheckAndSetConfig(index, req.Config.ModifyIndex, req.Config)
+		// Both conditional writes happen in one transaction so that a failing
+		// config check cannot leave the new roots behind.
+		act, err := state.CARootSetAndConfigCAS(index, req.Index, req.Roots, req.Config)
 		if err != nil {
 			return err
 		}
